@@ -109,10 +109,14 @@ def oracle(ctx, st, ob, with_q):
         return out
 
     only_hh = {}
+    kinds_of = {}
+    from props.c12 import inv_diag as _inv_diag
+    _spacing = min(1.0 / math.sqrt(g_) for g_ in _inv_diag(G))
 
     def is_bonded_image(mi, n, k, margin=0.0):
         best = None
         hh = True
+        kinds = set()
         for i, p in image_atoms(mi, n, k):
             for b in atoms:
                 d = sc.glen(G, [p[0] - b.x, p[1] - b.y, p[2] - b.z])
@@ -121,7 +125,12 @@ def oracle(ctx, st, ob, with_q):
                         best = d
                     if not (sc.is_h(atoms[i]) and sc.is_h(b) and atoms[i].an == b.an):
                         hh = False
+                        # every contact that makes the image a bonded one is classified: a plain one, or one the component-wise wrap cannot see
+                        kinds.add('long' if (d >= _spacing / 2 - 1e-3 or d >= 5.3 - 1e-3) else 'plain')
+                    else:
+                        kinds.add('hh')
         only_hh[(mi, n, k)] = best is not None and hh
+        kinds_of[(mi, n, k)] = kinds
         return best is not None, best
     for (mi, n, k) in images:
         ev += 1
@@ -147,7 +156,9 @@ def oracle(ctx, st, ob, with_q):
                 if missing:
                     common.add_violation(ctx, 'a fragment image directly bonded to the asymmetric unit is missing from the grown structure',
                                          dict(case, molecule=mi, operator=n, shift=list(k), bond_length=d), 'present', {'missing_atoms': missing[:4]},
-                                         cls='image_bonded_only_through_hydrogen_hydrogen_contacts' if only_hh.get((mi, n, k)) else classify_missing(ctx, ob, G, atoms, ops, mi, n, k, d))
+                                         cls=('image_bonded_only_through_hydrogen_hydrogen_contacts' if only_hh.get((mi, n, k))
+                                              else 'long_contact_beyond_half_interplanar_spacing' if 'plain' not in kinds_of.get((mi, n, k), {'plain'})
+                                              else classify_missing(ctx, ob, G, atoms, ops, mi, n, k, d)))
     return ev
 
 
